@@ -94,7 +94,29 @@ def check_enum(E, declared, span, rng, report, count, where, others=()):
     # integers that are not plain ints: bool, an int subclass, members / unrecognised values of another enum
     class _MyInt(int):
         pass
-    exotic = [True, False, _MyInt(7), _MyInt(-3), _MyInt(2 ** 40)]
+    class _WireInt:
+        """An integer object that is not derived from int (what numpy-style scalars look like)."""
+
+        def __init__(self, v):
+            self.v = v
+
+        def __index__(self):
+            return self.v
+
+        __int__ = __index__
+
+        def __eq__(self, other):
+            try:
+                return self.v == int(other)
+            except Exception:
+                return NotImplemented
+
+        def __hash__(self):
+            return hash(self.v)
+
+        def __repr__(self):
+            return "WireInt(%d)" % self.v
+    exotic = [True, False, _MyInt(7), _MyInt(-3), _MyInt(2 ** 40)] + [_WireInt(v) for v in (0, 1, 3, 200, 300, 64008, -1, 2 ** 40)]
     if others:
         for O in others[:2]:
             try:
